@@ -1098,6 +1098,8 @@ fn do_xargs(args: &[&str]) -> Result<CommandResult, XargsError> {
             Arg::new(options::REPLACE_I)
                 .short('I')
                 .num_args(1)
+                // R is any string, also one that looks like an option (`-I -x`).
+                .allow_hyphen_values(true)
                 .value_name("R")
                 .help(
                     "Replace R in initial arguments with names read from standard input; \
